@@ -81,6 +81,16 @@ class Cluster:
         nd = self.nodes[i]
         return sum(1 for e in self.timers if e.target is nd and e.event_type == typ and not e.cancelled)
 
+    def _op_of(self, f):
+        """op of a pending-future table entry (the future itself, or a tuple/list that carries it)."""
+        if id(f) in self.fut_op:
+            return self.fut_op[id(f)]
+        if isinstance(f, (tuple, list)):
+            for x in f:
+                if id(x) in self.fut_op:
+                    return self.fut_op[id(x)]
+        return 0
+
     def proj(self, i):
         nd = self.nodes[i]
         role = ROLE[nd.state]
@@ -94,7 +104,7 @@ class Cluster:
             ni = [0] * self.n
             mi = [0] * self.n
         votes = sorted(self.idx.get(v, 99) for v in nd._votes_received_set) if role == "C" else []
-        pend = sorted([k, self.fut_op.get(id(f), 0)] for k, f in nd._pending_futures.items() if k > 0)
+        pend = sorted([k, self._op_of(f)] for k, f in nd._pending_futures.items() if k > 0)
         vf = nd._voted_for
         return {"role": role, "term": nd.current_term, "voted": 0 if vf is None else self.idx.get(vf, 99),
                 "log": ents, "ci": log.commit_index, "la": nd._last_applied, "app": list(self.sms[i].applied),
